@@ -19,7 +19,7 @@ TYPES_DEFAULTS = [
               ("code", "np.empty({i})")]),
     ("str", [ABSENT, ("str", "foo"), ("str", ""), ("str", "two words"), ("str", "3"), ("str", "a.b")]),
     ("int", [ABSENT, ("int", 5), ("int", 0), ("int", -3)]),
-    ("float", [ABSENT, ("float", 0.5), ("float", -1.5), ("float", 2.0), ("float", 1e-07)]),
+    ("float", [ABSENT, ("float", 0.5), ("float", -1.5), ("float", 2.0), ("float", 1e-07), ("float", 1.0), ("float", 0.0)]),
     ("bool", [ABSENT, ("bool", True), ("bool", False)]),
     ("Optional[str]", [ABSENT, ("none",), ("str", "foo")]),
     ("Optional[int]", [ABSENT, ("none",), ("int", 5), ("int", 0)]),
@@ -97,7 +97,7 @@ def resolve_default(d, pos):
     if tag == "int":
         return v if v == 0 else (v + pos if v > 0 else v - pos)
     if tag == "float":
-        return v if v in (2.0, 1e-07) else (v + pos if v > 0 else v - pos)
+        return v if v in (2.0, 1e-07, 1.0, 0.0) else (v + pos if v > 0 else v - pos)
     if tag == "bool":
         return v
     if tag == "str":
@@ -119,7 +119,7 @@ def default_kind(d):
     if tag == "int":
         return "int<0" if v < 0 else ("int0" if v == 0 else "int>0")
     if tag == "float":
-        return "float<0" if v < 0 else ("float_exp" if v == 1e-07 else "float")
+        return "float<0" if v < 0 else ("float_exp" if v == 1e-07 else ("float_like_bool" if v in (0.0, 1.0) else "float"))
     if tag == "str":
         return {"": "str_empty", "two words": "str_space", "3": "str_digit", "a.b": "str_dot"}.get(v, "str")
     if tag == "code":
